@@ -35,7 +35,7 @@ ASSUMPTIONS = [
 MINIMUMS = {"quick": {"filter_comparisons": 300, "nontrivial_comparisons": 150}, "thorough": {"filter_comparisons": 8000}}
 WALL_CAP = {"quick": 170, "thorough": 3000}
 
-BIAS = {"move_out": 4, "move_in": 4, "mkdir": 3, "makedirs": 0, "create": 3, "write": 3, "chmod": 1.5, "unlink": 2, "rename_dir": 3, "rename_file": 2,
+BIAS = {"move_out": 4, "move_in": 4, "mkdir": 3, "makedirs": 0, "burst": 0, "create": 3, "write": 3, "chmod": 1.5, "unlink": 2, "rename_dir": 3, "rename_file": 2,
         "rmdir": 1, "rmtree": 1, "rename_replace": 1}
 
 
